@@ -1,50 +1,590 @@
+// Harness of property C03: every terminal report becomes the right event; the input loop
+// survives any input.  Runs the real handleSequence / input goroutine / New of /repo on a fake
+// console and writes Coq case files (coq/model/InputCheck.v evaluates them).
 package main
 
 import (
+	"bufio"
+	"encoding/json"
 	"fmt"
 	"os"
+	"os/exec"
+	"strconv"
 	"time"
 
 	vaxis "git.sr.ht/~rockorager/vaxis"
+	"git.sr.ht/~rockorager/vaxis/ansi"
 	"verif/harness/hx"
 )
 
-func drain(vx *vaxis.Vaxis, d time.Duration) []vaxis.Event {
-	var out []vaxis.Event
-	for {
-		select {
-		case ev := <-vx.Events():
-			out = append(out, ev)
-		case <-time.After(d):
-			return out
+// ---------- child process: loop-mode cases (a panic of the input goroutine kills the
+// process, so these run isolated; the parent records the case that killed a child) ----------
+
+func childMain(file string, from int) {
+	data, err := os.ReadFile(file)
+	if err != nil {
+		panic(err)
+	}
+	var cases []HCase
+	if err := json.Unmarshal(data, &cases); err != nil {
+		panic(err)
+	}
+	w := bufio.NewWriter(os.Stdout)
+	enc := json.NewEncoder(w)
+	for i := from; i < len(cases); i++ {
+		fmt.Fprintf(w, "BEGIN %d\n", i)
+		w.Flush()
+		res := runCase(cases[i])
+		fmt.Fprintf(w, "RESULT %d ", i)
+		if err := enc.Encode(res); err != nil {
+			panic(err)
+		}
+		w.Flush()
+	}
+}
+
+func runLoopCases(cases []HCase, dir string) []HResult {
+	file := dir + "/C03_loop_cases.json"
+	data, _ := json.Marshal(cases)
+	if err := os.WriteFile(file, data, 0o644); err != nil {
+		panic(err)
+	}
+	results := make([]HResult, len(cases))
+	from := 0
+	for from < len(cases) {
+		cmd := exec.Command(os.Args[0], "-loopchild", file, strconv.Itoa(from))
+		out, err := cmd.StdoutPipe()
+		if err != nil {
+			panic(err)
+		}
+		var stderr limitedBuf
+		cmd.Stderr = &stderr
+		if err := cmd.Start(); err != nil {
+			panic(err)
+		}
+		sc := bufio.NewScanner(out)
+		sc.Buffer(make([]byte, 1<<20), 1<<26)
+		begun, done := -1, from-1
+		for sc.Scan() {
+			line := sc.Text()
+			var i int
+			if n, _ := fmt.Sscanf(line, "BEGIN %d", &i); n == 1 {
+				begun = i
+				continue
+			}
+			if n, _ := fmt.Sscanf(line, "RESULT %d ", &i); n == 1 {
+				js := line[len(fmt.Sprintf("RESULT %d ", i)):]
+				if err := json.Unmarshal([]byte(js), &results[i]); err != nil {
+					panic(err)
+				}
+				done = i
+			}
+		}
+		cmd.Wait()
+		if done == len(cases)-1 {
+			break
+		}
+		// the child died while running case `begun`
+		if begun <= done {
+			panic("loop child died outside a case: " + stderr.String())
+		}
+		hc := cases[begun]
+		res := HResult{Code: 1, Msg: "the process died: " + stderr.String(), Events: []Ev{}, Cursors: [][2]int{}, Clips: []string{}}
+		// what is needed to print the case: state before and the delivered items (recomputed;
+		// a fresh instance with the same profile starts in the same state)
+		in := newInst(hx.ProfileFromMask(hc.Mask, 24, 80), hc.QSize)
+		res.Init = snapOf(in.vx)
+		res.CapsTerm, res.CapsOn = capsTerm(in.vx)
+		in.close(true)
+		res.Steps = append(res.Steps, hc.Plan...)
+		for _, it := range parseItems(hc.Bytes) {
+			it := it
+			res.Steps = append(res.Steps, Step{It: &it})
+		}
+		results[begun] = res
+		from = begun + 1
+	}
+	return results
+}
+
+type limitedBuf struct{ b []byte }
+
+func (l *limitedBuf) Write(p []byte) (int, error) {
+	if len(l.b) < 600 {
+		l.b = append(l.b, p...)
+	}
+	return len(p), nil
+}
+func (l *limitedBuf) String() string {
+	if len(l.b) > 600 {
+		return string(l.b[:600])
+	}
+	return string(l.b)
+}
+
+// ---------- case generation ----------
+
+var capMasks []uint32
+
+func (g *gen) mask() uint32 {
+	switch g.n(6) {
+	case 0:
+		return 0
+	case 1:
+		return 0x1ffff &^ (1 << 3)
+	case 2:
+		return 0x1ffff
+	case 3:
+		return 1 << uint(g.n(17))
+	default:
+		return uint32(g.r.Int63()) & 0x1ffff
+	}
+}
+
+func hasTag(ts []token, tag string) bool {
+	for _, t := range ts {
+		if t.tag == tag {
+			return true
 		}
 	}
+	return false
+}
+
+func dropTags(ts []token, tags ...string) []token {
+	var out []token
+	for _, t := range ts {
+		keep := true
+		for _, d := range tags {
+			if t.tag == d {
+				keep = false
+			}
+		}
+		if keep {
+			out = append(out, t)
+		}
+	}
+	return out
+}
+
+// loop-mode case: bytes through the real goroutine
+func (g *gen) loopCase(maxTok int) HCase {
+	ts := g.stream(maxTok)
+	hc := HCase{Loop: true, Mask: g.mask()}
+	switch g.n(10) {
+	case 0:
+		// an outstanding cursor-position query (no 10 ms clipboard waits in the same stream, so
+		// that the 50 ms time-out cannot fire in the middle)
+		ts = dropTags(ts, "reply-osc52")
+		if g.n(2) == 0 {
+			k := g.n(len(ts) + 1)
+			tok := token{"reply-cpr-solicited", fmt.Sprintf("\x1b[%d;%dR", 1+g.n(50), 1+g.n(100))}
+			ts = append(ts[:k:k], append([]token{tok}, ts[k:]...)...)
+		}
+		hc.Plan = []Step{{App: "ACursorQuery"}}
+		hc.Tags = append(hc.Tags, "app-cursor-query")
+	case 1:
+		hc.Plan = []Step{{App: "AClipWait"}}
+		ts = append(ts, token{"reply-osc52-solicited", "\x1b]52;c;aGVsbG8gd29ybGQ=\x1b\\"})
+		hc.Tags = append(hc.Tags, "app-clip-wait")
+	case 2:
+		// slow consumer: tiny queue, the application starts reading late (no non-blocking posts
+		// in the stream: those are dropped by design when the queue is full)
+		ts = dropTags(ts, "reply-inband", "reply-osc176", "garbage-params", "truncated")
+		hc.QSize = 1 + g.n(4)
+		hc.Lazy = true
+		hc.Tags = append(hc.Tags, "lazy-reader")
+	}
+	s, tags := joinTokens(ts)
+	hc.Bytes = []byte(s + sentinelBytes)
+	hc.Show = quoted(hc.Bytes)
+	hc.Tags = append(hc.Tags, tags...)
+	hc.Tags = append(hc.Tags, "loop")
+	return hc
+}
+
+// synthetic items the parser cannot deliver (empty parameter lists) and odd shapes
+func (g *gen) rawItem() Item {
+	fin := rune(g.pick("c", "R", "S", "n", "y", "~", "M", "m", "t", "u", "A")[0])
+	var inter []rune
+	switch g.n(4) {
+	case 0:
+		inter = []rune{'?'}
+	case 1:
+		inter = []rune{'<'}
+	case 2:
+		inter = []rune{'<', '$'}
+	}
+	var ps [][]int
+	for i, n := 0, g.n(6); i < n; i++ {
+		switch g.n(5) {
+		case 0:
+			ps = append(ps, []int{})
+		case 1:
+			ps = append(ps, []int{g.n(10), g.n(10)})
+		default:
+			ps = append(ps, []int{[]int{0, 1, 2, 4, 8, 48, 200, 201, 997, 2026, 2027, 2031}[g.n(12)]})
+		}
+	}
+	return Item{Kind: "csi", Inter: inter, PS: ps, Final: fin}
+}
+
+// direct-mode case: handleSequence called item by item on an idle Vaxis
+func (g *gen) directCase(maxTok int) HCase {
+	ts := g.stream(maxTok)
+	hc := HCase{Mask: g.mask()}
+	mode := g.n(20)
+	if mode == 0 {
+		ts = dropTags(ts, "reply-osc52")
+	}
+	s, tags := joinTokens(ts)
+	for _, it := range parseItems([]byte(s)) {
+		it := it
+		hc.Plan = append(hc.Plan, Step{It: &it})
+	}
+	hc.Tags = append(tags, "direct")
+	ins := func(st Step) {
+		k := g.n(len(hc.Plan) + 1)
+		hc.Plan = append(hc.Plan[:k:k], append([]Step{st}, hc.Plan[k:]...)...)
+	}
+	switch mode {
+	case 0:
+		if g.n(2) == 0 {
+			it := Item{Kind: "csi", PS: [][]int{{1 + g.n(50)}, {1 + g.n(100)}}, Final: 'R'}
+			ins(Step{It: &it})
+		}
+		ins(Step{App: "ACursorQuery"})
+		hc.Tags = append(hc.Tags, "app-cursor-query")
+	case 1:
+		it := Item{Kind: "osc", Runes: []rune("52;c;aGk=")}
+		ins(Step{It: &it})
+		ins(Step{App: "AClipWait"})
+		hc.Tags = append(hc.Tags, "app-clip-wait")
+	case 2:
+		// nobody reads and the queue is tiny: back-pressure
+		hc.QSize = 1 + g.n(4)
+		hc.Tags = append(hc.Tags, "stalled-queue")
+	case 3, 4:
+		for i, n := 0, 1+g.n(3); i < n; i++ {
+			it := g.rawItem()
+			ins(Step{It: &it})
+		}
+		hc.Tags = append(hc.Tags, "synthetic-item")
+	}
+	hc.Show = quoted([]byte(s))
+	return hc
+}
+
+func directed() []HCase {
+	var out []HCase
+	add := func(loop bool, mask uint32, tag, s string) {
+		hc := HCase{Loop: loop, Mask: mask, Tags: []string{tag, "directed"}}
+		if loop {
+			hc.Bytes = []byte(s + sentinelBytes)
+			hc.Show = quoted(hc.Bytes)
+			hc.Tags = append(hc.Tags, "loop")
+		} else {
+			for _, it := range parseItems([]byte(s)) {
+				it := it
+				hc.Plan = append(hc.Plan, Step{It: &it})
+			}
+			hc.Show = quoted([]byte(s))
+			hc.Tags = append(hc.Tags, "direct")
+		}
+		out = append(out, hc)
+	}
+	all := uint32(0x1ffff) &^ (1 << 3)
+	for _, loop := range []bool{false, true} {
+		for _, m := range []uint32{0, all} {
+			// the defects repaired in /repo: each of these crashed or wedged the pinned code
+			add(loop, m, "mouse-nomarker", "\x1b[0;1;1M")
+			add(loop, m, "mouse-legacy-x10", "\x1b[M !!")
+			add(loop, m, "mouse-nomarker", "\x1b[m")
+			add(loop, m, "repeated-size-reply", "\x1b[8;24;80t\x1b[8;24;80t\x1b[8;25;81t")
+			add(loop, m, "repeated-osc4-reply", "\x1b]4;1;rgb:0000/0000/0000\x07\x1b]4;1;rgb:1111/0000/0000\x07\x1b]4;2;rgb:2/2/2\x07")
+			add(loop, m, "repeated-osc10-reply", "\x1b]10;rgb:0000/0000/0000\x07\x1b]10;rgb:1/1/1\x07")
+			add(loop, m, "repeated-osc11-reply", "\x1b]11;rgb:0000/0000/0000\x07\x1b]11;rgb:1/1/1\x07")
+			add(loop, m, "paste", "a\x1b[200~b\x1b[Ac\x1b[<0;1;1M\x1b[201~d")
+			add(loop, m, "reply-inband", "\x1b[48;30;100;600;1000t")
+		}
+	}
+	return out
+}
+
+// ---------- mouse stream ----------
+
+func mouseCases(g *gen, s *hx.Stream, n int) {
+	add := func(it Item, tags ...string) {
+		seq := it.toSeq().(ansi.CSI)
+		var m vaxis.Mouse
+		var ok bool
+		panicked, msg := hx.Catch(func() { m, ok = vaxis.VerifC03ParseMouse(seq) })
+		code := 0
+		if panicked {
+			code = 1
+		}
+		z := func(i int) string { return hx.Z(int64(i)) }
+		term := hx.Tuple(hx.Tuple(hx.RuneSlice(it.Inter), psTerm(it.PS), z(int(it.Final))),
+			hx.Tuple(z(code), hx.Bool(ok), hx.Tuple(z(int(m.Button)), z(m.Row), z(m.Col), z(int(m.EventType)), z(int(m.Modifiers)))))
+		js := map[string]interface{}{"item": it, "panic": msg, "ok": ok, "mouse": m}
+		s.Add(term, js, ok || panicked, tags...)
+	}
+	for i := 0; i < n; i++ {
+		switch g.n(4) {
+		case 0:
+			add(g.rawItem(), "synthetic")
+		default:
+			t := g.mouse()
+			for _, it := range parseItems([]byte(t.bytes)) {
+				if it.Kind == "csi" && (it.Final == 'M' || it.Final == 'm') {
+					add(it, t.tag)
+				}
+			}
+		}
+	}
+	// every button code x modifier x motion combination, press and release
+	for cb := 0; cb < 256; cb++ {
+		for _, fin := range []rune{'M', 'm'} {
+			add(Item{Kind: "csi", Inter: []rune{'<'}, PS: [][]int{{cb}, {1 + cb%7}, {1 + cb%5}}, Final: fin}, "all-cb")
+		}
+	}
+	add(Item{Kind: "csi", PS: [][]int{{0}, {1}, {1}}, Final: 'M'}, "no-marker")
+	add(Item{Kind: "csi", Final: 'M'}, "no-marker")
+	add(Item{Kind: "csi", Inter: []rune{'<'}, PS: [][]int{{0}, {-9223372036854775808}, {0}}, Final: 'M'}, "int-min")
+}
+
+// ---------- timing samples (partial: real delays around the 50 ms / 100 ms time-outs) ----------
+
+type timing struct {
+	Trials, Answered, TimedOut, Wedged int
+}
+
+// a cursor-position reply arriving d after the query; afterwards the loop must still deliver
+func cursorRace(delays []time.Duration) (timing, []hx.DirectViolation) {
+	var t timing
+	var dv []hx.DirectViolation
+	for _, d := range delays {
+		in := newInst(hx.ProfileFromMask(0, 24, 80), 0)
+		res := make(chan [2]int, 1)
+		go func() {
+			r, c := in.vx.CursorPosition()
+			res <- [2]int{r, c}
+		}()
+		<-in.sawCursor
+		time.Sleep(d)
+		in.fc.InjectString("\x1b[3;4R" + sentinelBytes)
+		alive := false
+		deadline := time.After(500 * time.Millisecond)
+	read:
+		for {
+			select {
+			case ev := <-in.vx.Events():
+				if isSentinel(fromEvent(ev)) {
+					alive = true
+					break read
+				}
+			case <-deadline:
+				break read
+			}
+		}
+		rc := <-res
+		t.Trials++
+		switch {
+		case !alive:
+			t.Wedged++
+			dv = append(dv, hx.DirectViolation{Class: "cursor-reply-race", Case: map[string]interface{}{"delay_us": d.Microseconds()},
+				What: "a cursor-position reply arriving around the 50 ms time-out wedged the input loop"})
+		case rc == [2]int{2, 3}:
+			t.Answered++
+		default:
+			t.TimedOut++
+		}
+		in.close(alive)
+	}
+	return t, dv
+}
+
+// reportWinsize (100 ms deadline) against size reports arriving early, late, twice, never
+func sizeRace(delays []time.Duration) (timing, []hx.DirectViolation) {
+	var t timing
+	var dv []hx.DirectViolation
+	os.Setenv("VAXIS_FORCE_XTWINOPS", "1")
+	defer os.Unsetenv("VAXIS_FORCE_XTWINOPS")
+	for _, d := range delays {
+		in := newInst(hx.ProfileFromMask(1<<8, 24, 80), 0)
+		saw := make(chan struct{}, 4)
+		in.fc.WriteHook = func(p []byte) {
+			if string(p) == "\x1b[14t\x1b[18t" {
+				saw <- struct{}{}
+			}
+		}
+		in.vx.Resize()
+		done := make(chan struct{})
+		go func() { in.vx.Render(); close(done) }()
+		<-saw
+		time.Sleep(d)
+		// the same report twice: the second one finds the channel full (or nobody waiting)
+		in.fc.InjectString("\x1b[4;384;640t\x1b[8;30;100t\x1b[8;30;100t" + sentinelBytes)
+		alive := false
+		deadline := time.After(600 * time.Millisecond)
+	read:
+		for {
+			select {
+			case ev := <-in.vx.Events():
+				if isSentinel(fromEvent(ev)) {
+					alive = true
+					break read
+				}
+			case <-deadline:
+				break read
+			}
+		}
+		<-done
+		t.Trials++
+		if !alive {
+			t.Wedged++
+			dv = append(dv, hx.DirectViolation{Class: "size-reply-race", Case: map[string]interface{}{"delay_us": d.Microseconds()},
+				What: "size reports arriving around reportWinsize's 100 ms deadline wedged the input loop"})
+		} else if d < 100*time.Millisecond {
+			t.Answered++
+		} else {
+			t.TimedOut++
+		}
+		in.close(alive)
+	}
+	return t, dv
 }
 
 func main() {
 	os.Unsetenv("COLORTERM")
-	which := os.Args[1]
-	mask := uint32(0x1ffff) &^ (1 << 3)
-	fc := hx.NewFakeConsole(hx.ProfileFromMask(mask, 5, 10))
-	if which == "typeahead" {
-		fc.InjectString("ab")
+	if len(os.Args) == 4 && os.Args[1] == "-loopchild" {
+		from, _ := strconv.Atoi(os.Args[3])
+		childMain(os.Args[2], from)
+		return
 	}
-	vx, err := vaxis.New(vaxis.Options{WithConsole: fc, NoSignals: true})
-	if err != nil {
-		panic(err)
+	cfg := hx.ParseFlags()
+	g := &gen{r: cfg.Rand}
+	imports := "model.Parser model.Mouse model.Input model.InputCheck"
+	handle := hx.NewStream("handle", imports, "hcase", "c03_handle_mismatches", "c03_handle_violations")
+	mouse := hx.NewStream("mouse", imports, "mcase", "c03_mouse_mismatches", "c03_mouse_violations")
+	startup := hx.NewStream("startup", imports, "scase", "c03_startup_mismatches", "c03_startup_violations")
+	startup.Known, startup.KnownClass = "c03_startup_known", "startup-typeahead"
+	handle.ShardMax, startup.ShardMax = 150, 100
+
+	nDirect, nLoop, nMouse, nStart, maxTok := 900, 700, 600, 90, 8
+	raceDelays := []time.Duration{0, 45 * time.Millisecond, 49500 * time.Microsecond, 50 * time.Millisecond, 50500 * time.Microsecond, 55 * time.Millisecond}
+	sizeDelays := []time.Duration{0, 99 * time.Millisecond, 101 * time.Millisecond}
+	if cfg.Thorough() {
+		nDirect, nLoop, nMouse, nStart, maxTok = 12000, 9000, 6000, 1500, 12
+		for i := 0; i < 120; i++ {
+			raceDelays = append(raceDelays, 49*time.Millisecond+time.Duration(g.n(2000))*time.Microsecond)
+		}
+		for i := 0; i < 30; i++ {
+			sizeDelays = append(sizeDelays, 99*time.Millisecond+time.Duration(g.n(2000))*time.Microsecond)
+		}
 	}
-	fmt.Printf("startup events: %#v\n", drain(vx, 20*time.Millisecond))
-	switch which {
-	case "size":
-		fc.InjectString("\x1b[8;5;10t\x1b[8;5;10tx")
-	case "size1":
-		fc.InjectString("\x1b[8;5;10tx")
-	case "osc4":
-		fc.InjectString("\x1b]4;1;rgb:0000/0000/0000\x07\x1b]4;1;rgb:0000/0000/0000\x07x")
-	case "mouse":
-		fc.InjectString("\x1b[0;1;1Mx")
-	case "mouseok":
-		fc.InjectString("\x1b[<0;1;1Mx")
+
+	// ---- handle stream
+	t0 := time.Now()
+	var direct, loop []HCase
+	for _, hc := range directed() {
+		if hc.Loop {
+			loop = append(loop, hc)
+		} else {
+			direct = append(direct, hc)
+		}
 	}
-	fmt.Printf("events: %#v\n", drain(vx, 200*time.Millisecond))
+	for i := 0; i < nDirect; i++ {
+		direct = append(direct, g.directCase(maxTok))
+	}
+	for i := 0; i < nLoop; i++ {
+		loop = append(loop, g.loopCase(maxTok))
+	}
+	outcomes := map[string]int{}
+	addH := func(hc HCase, res HResult) {
+		js := map[string]interface{}{"case": hc, "observed": res}
+		nontrivial := false
+		for _, e := range res.Events {
+			if e.Kind != "key" {
+				nontrivial = true
+			}
+		}
+		tags := append([]string{}, hc.Tags...)
+		tags = append(tags, []string{"outcome-ok", "outcome-panic", "outcome-wedged"}[res.Code])
+		outcomes[tags[len(tags)-1]]++
+		handle.Add(res.term(hc), js, nontrivial || res.Code != 0, tags...)
+	}
+	for _, hc := range direct {
+		addH(hc, runCase(hc))
+	}
+	tDirect := time.Since(t0)
+	t0 = time.Now()
+	for i, res := range runLoopCases(loop, cfg.Out) {
+		addH(loop[i], res)
+	}
+	tLoop := time.Since(t0)
+
+	// ---- mouse stream
+	mouseCases(g, mouse, nMouse)
+
+	// ---- start-up stream
+	t0 = time.Now()
+	for i := 0; i < nStart; i++ {
+		sc := SCase{Mask: g.mask(), DisableKitty: g.n(4) == 0, Rows: 5 + g.n(40), Cols: 10 + g.n(150),
+			XTVersion: g.pick("", "fake(1.0)", "kitty(0.31.0)", "tmux 3.4", "tmux 3.4a"), CursorStyle: g.n(9) - 2}
+		if i < 18 {
+			sc.Mask = 1 << uint(i%17)
+			if i == 17 {
+				sc.Mask = 0x1ffff
+			}
+		}
+		tags := []string{"profile"}
+		if g.n(4) == 0 {
+			// user input typed while the start-up queries are outstanding
+			ks := ""
+			for j, n := 0, 1+g.n(3); j < n; j++ {
+				switch g.n(3) {
+				case 0:
+					ks += g.pick("a", "Z", "\r", "\x1b[A", "\x1b[97;5u")
+				case 1:
+					ks += g.pick("\x1b[<0;3;4M", "\x1b[I", "\x1b[200~x\x1b[201~")
+				default:
+					ks += string(rune(97 + g.n(26)))
+				}
+			}
+			if g.n(2) == 0 {
+				sc.Pre = ks
+			} else {
+				sc.Mid = ks
+			}
+			tags = append(tags, "typeahead")
+		}
+		res := runStartup(sc)
+		js := map[string]interface{}{"case": sc, "observed": res}
+		if sc.Pre != "" || sc.Mid != "" {
+			js["class"] = "startup-typeahead"
+		}
+		startup.Add(res.term(sc), js, len(res.CapsOn) > 0, tags...)
+	}
+	tStart := time.Since(t0)
+
+	// ---- timing samples
+	t0 = time.Now()
+	race, dv1 := cursorRace(raceDelays)
+	srace, dv2 := sizeRace(sizeDelays)
+	tTiming := time.Since(t0)
+
+	extra := map[string]interface{}{
+		"handle_outcomes":   outcomes,
+		"direct_cases":      len(direct),
+		"loop_cases":        len(loop),
+		"direct_seconds":    tDirect.Seconds(),
+		"loop_seconds":      tLoop.Seconds(),
+		"startup_seconds":   tStart.Seconds(),
+		"timing_seconds":    tTiming.Seconds(),
+		"cursor_reply_race": race,
+		"size_reply_race":   srace,
+		"timing_note":       "partial: replies are sent at sampled real delays around the 50 ms (CursorPosition) and 100 ms (reportWinsize) time-outs; only liveness of the loop afterwards is checked",
+	}
+	rule := "handle: a case is non-trivial when the implementation delivered an event other than a plain key, or crashed/wedged; mouse: parseMouseEvent accepted or panicked; startup: at least one capability detected"
+	cfg.Write("C03", rule, []*hx.Stream{handle, mouse, startup}, extra, append(dv1, dv2...))
 }
